@@ -639,7 +639,113 @@ def r11(ctx):
                bad.get(e, 'not reachable with a pending symbol'))
 
 
+def r12(ctx):
+    ctx.mark('arbitration-pair', 'C14.R12')
+    ctx.rule('C14.R12', 'the two variables of a running arbitration go together: wherever a method of EnhancedDevice ends an '
+             'arbitration by m_arbitrationMaster = SYN, m_arbitrationCheck is 0 on every path to the end of the method (cleared '
+             'there, or known to be 0 because the method returned early for a non-zero value); a counter left behind makes '
+             'every later startArbitration() refuse with "arbitration running" and write nothing', minimum=4)
+    fb = ctx.fb
+    n = 0
+    seen = set()
+    for fn in fb.functions:
+        if fn.cls != 'ebusd::EnhancedDevice' or not fn.blocks or (fn.name, fn.sig) in seen:
+            continue
+        seen.add((fn.name, fn.sig))
+        ends = [nid for nid, d, rhs, op, lhs in fn.assignments() if d == 'this.m_arbitrationMaster' and rhs is not None and fn.val(rhs) == 170]
+        clears = set(nid for nid, d, rhs, op, lhs in fn.assignments() if d == 'this.m_arbitrationCheck' and op == '=' and rhs is not None and fn.val(rhs) == 0)
+        sets = set(nid for nid, d, rhs, op, lhs in fn.assignments() if d == 'this.m_arbitrationCheck' and nid not in clears)
+        for e in ends:
+            n += 1
+            ctx.touch(fn)
+            pe = fn.pos(e)
+            # cleared before in the same straight-line run, or on every path behind
+            before = any(fn.pos(c) is not None and fn.pos(c)[0] == pe[0] and fn.pos(c)[1] < pe[1] for c in clears)
+            behind = bool(clears) and not fn.reaches_point(pe[0], (fn.exit, 0), clears, start_idx=pe[1] + 1)
+            # or the counter is known to be zero: the function left early for a non-zero counter and does not set it before
+            zero = fn.needs_one_of(e, [('this.m_arbitrationCheck', False), ('(this.m_arbitrationCheck == #0)', True)]) and \
+                not any(fn.pos(s_) is not None and fn.reaches_point(fn.pos(s_)[0], pe, set(), start_idx=fn.pos(s_)[1] + 1) for s_ in sets)
+            ctx.ob('C14.R12', fn, e, before or behind or zero, 'end of an arbitration in %s' % fn.name.split('::')[-1],
+                   'm_arbitrationCheck is 0 as well: %s' % (before or behind or zero))
+    if n < 4:
+        raise AnalysisBroken('C14.R12: only %d ends of an arbitration found in EnhancedDevice' % n)
+
+
+def r13(ctx):
+    ctx.rule('C14.R13', 'a byte is taken as the second byte of a sequence exactly if its two top bits are 10: the condition under '
+             'which handleEnhancedBufferedData reports "missing enhanced byte 2", evaluated for all 256 values of the byte '
+             'behind a first byte, is true exactly for the values outside 0x80..0xbf (another first byte or a plain byte must '
+             'not be consumed as data)', minimum=1)
+    import tinyeval
+    fb = ctx.fb
+    fn = fb.fn(DEC)
+    ctx.touch(fn)
+    n = 0
+    for c in fn.all('CXXMemberCallExpr'):
+        v = fn.nodes[c]
+        if not (v.get('callee') or '').endswith('::notifyDeviceStatus') or len(v.get('args', [])) < 2 or 'missing enhanced byte 2' not in fn.key(v['args'][1]):
+            continue
+        p = fn.parent(c)
+        child = c
+        conds = []
+        while p is not None:
+            pv = fn.nodes[p]
+            if pv['k'] == 'IfStmt' and pv.get('then') is not None and (child == pv['then'] or child in set(fn.walk(pv['then']))):
+                conds.append(pv['cond'])
+            child = p
+            p = fn.parent(p)
+        conds = [x for x in conds if 'this.m_listener' not in fn.key(x)]
+        if not conds:
+            continue
+        cond = conds[0]
+        locs = sorted(set(fn.nodes[x]['decl'] for x in fn.walk(cond) if fn.nodes[x]['k'] == 'DeclRefExpr' and fn.nodes[x].get('rk') == 'local'))
+        if len(locs) != 1:
+            continue
+        n += 1
+        bad = []
+        try:
+            for b in range(256):
+                m = tinyeval.Machine(fn, {}, [])
+                m.locals[locs[0]] = b
+                got = bool(m.rv(cond))
+                if got != ((b & 0xc0) != 0x80) and len(bad) < 4:
+                    bad.append('%02x is %s' % (b, 'refused' if got else 'accepted as second byte'))
+        except tinyeval.Unknown as e:
+            raise AnalysisBroken('C14.R13: second byte condition not evaluable (%s)' % e)
+        ctx.ob('C14.R13', fn, cond, not bad, 'classification of the second byte', '; '.join(bad) or 'second byte iff top bits are 10')
+    if n < 1:
+        raise AnalysisBroken('C14.R13: check of the second byte not found')
+
+
+def r14(ctx):
+    ctx.mark('arbitration-counter', 'C14.R14')
+    ctx.rule('C14.R14', 'a counter that is compared with a bound moves towards it: where handleEnhancedBufferedData changes '
+             'm_arbitrationCheck under "counter < N" (the SYN symbols seen while an arbitration start is unanswered), it '
+             'increases it, so that the other branch (timeout of the arbitration) is reached after N symbols; counting the '
+             'other way keeps the device arbitrating for ever and the request is never completed', minimum=1)
+    import re
+    fb = ctx.fb
+    fn = fb.fn(DEC)
+    ctx.touch(fn)
+    n = 0
+    for nid, d, rhs, op, lhs in fn.assignments():
+        if d != 'this.m_arbitrationCheck' or op in ('=', 'init'):
+            continue
+        bound = [(k, p) for k, p in ((a[0], a[1]) for a in fn.atoms(nid)) if re.match(r'^\(this\.m_arbitrationCheck (<|<=) #\d+\)$', k)]
+        if not bound:
+            continue
+        n += 1
+        up = op == '++' or (op == '+=' and rhs is not None and (fn.val(rhs) or 0) > 0)
+        ok = all((up and p) or (not up and not p) for k, p in bound)
+        ctx.ob('C14.R14', fn, nid, ok, 'SYN counter of an unanswered arbitration', 'm_arbitrationCheck %s under %s' % (op, bound))
+    if n < 1:
+        raise AnalysisBroken('C14.R14: bounded update of m_arbitrationCheck not found')
+
+
 def run(ctx):
+    r12(ctx)
+    r13(ctx)
+    r14(ctx)
     clock_rule(ctx, 'C14.R10')
     overflow_threshold_rule(ctx, 'C14.R9')
     vals = r1(ctx)
